@@ -166,6 +166,10 @@ def run_check(prop, tier, seed, replay, t0):
             cov["states"] += r["states"]
             cov["transitions"] += r["transitions"]
             cov["mc"].append(r)
+        for pm in plan.get("proofs", []):
+            r = run.tlapm(pm)
+            log("[proof] %s: %d obligations proved by TLAPS, %ss" % (pm, r["obligations"], r["wall"]))
+            cov.setdefault("proofs", []).append(r)
     # 2. workloads against the real crate
     if replay and replay.endswith(".bfs.json"):
         batches = [("replay", [], {"bfs": json.load(open(replay)), "max_states": 200000})]
